@@ -311,8 +311,9 @@ def volatile_indices(th, present):
 # ----------------------------------------------------------------------------------------------------------------
 # executing one call on the real stream
 
-PROGRAMMING_ERRORS = ('TypeError', 'IndexError', 'AttributeError', 'KeyError', 'UnboundLocalError', 'NameError',
-                      'StampedKeyError', 'UndefinedChemicalAlias', 'UndefinedPhase')
+PROGRAMMING_ERRORS = ('TypeError', 'IndexError', 'AttributeError', 'KeyError', 'UnboundLocalError', 'NameError', 'StampedKeyError')
+# thermosteam's own exception classes (UndefinedPhase: e.g. vlle on a stream that holds solid material, whose phases it
+# resets to (L, g, l); UndefinedChemicalAlias, InfeasibleRegion, NoEquilibrium, DimensionError) are documented rejections
 
 class St:
     __slots__ = ('config', 's', 'th', 'tot0', 'last', 'n_calls', 'extra')
